@@ -51,6 +51,11 @@ def histRun (f : Fmt) (ops : List String) : Option String := do
           (fun e => "v=_ e=" ++ showErr (some e))
         let r ← go st' rest
         pure (o :: r)
+      | ["D", id] => do
+        let id ← idOf id
+        let (st', o) := st.fromRoot id (fun t => "e=" ++ showErr (mkdirRootsApi f [] [0x74] true [t] []).err) (fun e => "e=" ++ showErr (some e))
+        let r ← go st' rest
+        pure (o :: r)
       | ["J", id] => do
         let id ← idOf id
         let (st', o) := st.fromRoot id (fun t => "f=" ++ showF (toFormatted t) ++ " e=nil") (fun e => "f=_ e=" ++ showErr (some e))
